@@ -68,3 +68,17 @@ contract(FB, "Fiber.countValues", cases=[dict(self="Fiber"), dict(self="Fiber", 
          ensures={"C12": ["result == C(len(self.payloads))", "0 <= result", "unchanged_list(self.coords)", "unchanged_list(self.payloads)"]},
          loops={0: dict(types={"count": "int"}, modifies=[], invariant=["count == C(_i0)", "0 <= count"])},
          note="leaf rank: the number of boxes whose value differs from the fiber's default (C is the defined count); deeper ranks recurse on this contract (bounded part)")
+
+# ---------------------------------------------------------------- flattening: the coordinate map (C09), integer coordinates
+contract(FB, "Fiber._flattenCoords",
+         cases=[dict(c1="int", c0="int", style="=tuple"), dict(c1="int", c0="int", style="=pair"), dict(c1="int", c0="int", style="=absolute"),
+                dict(c1="int", c0="int", style="=relative"), dict(c1="int", c0="int", style="=linear", shape="opt[int]")],
+         case_names=["tuple", "pair", "absolute", "relative", "linear"],
+         returns=["tuple[int,int]", "tuple[int,int]", "int", "int", "int"], modifies=[],
+         per_case={"tuple": dict(ensures=["result[0] == c1 and result[1] == c0"]),
+                   "pair": dict(ensures=["result[0] == c1 and result[1] == c0"]),
+                   "absolute": dict(ensures=["result == c0"]),
+                   "relative": dict(ensures=["result == c1 + c0"]),
+                   "linear": dict(requires=["not isnone(shape)"], ensures=["result == c1 * val(shape) + c0"])},
+         ensures={"C09": []},
+         note="the stated combination of an upper and a lower integer coordinate for each flattening style (tuple coordinates: bounded part)")
